@@ -128,6 +128,7 @@ func runC03(e *sim.Env) {
 	}
 	var s *chainSUT
 	var disk *simdisk.DB
+	cached, ioFired := false, false
 	var bhook *boltHook
 	dir := ""
 	if useBolt {
@@ -147,12 +148,22 @@ func runC03(e *sim.Env) {
 		disk = simdisk.New()
 		rs = &recStore{}
 		disk.OnCommit = func(im *simdisk.Image) { record(&commitPoint{image: im}) }
-		dbs, tip, err := chain.NewDBStore(disk, net.Network, net.Genesis, nil)
+		// 1 run in 3: the node runs on the write-back cache the package offers
+		// (chain.NewCacheDB) over the disk; what the disk commits is still what
+		// a crash leaves behind
+		var db chain.DB = disk
+		if e.Chance(1, 3) {
+			db = chain.NewCacheDB(disk)
+			cached = true
+			e.Shape("cachedb")
+			e.Probe("node_on_cachedb")
+		}
+		dbs, tip, err := chain.NewDBStore(db, net.Network, net.Genesis, nil)
 		if err != nil {
 			e.Violationf("C03.open", "NewDBStore", "NewDBStore failed: %v", err)
 		}
 		rs.DBStore = dbs
-		s = &chainSUT{net: net, db: disk, disk: disk, store: rs, cm: chain.NewManager(rs, tip)}
+		s = &chainSUT{net: net, db: db, disk: disk, store: rs, cm: chain.NewManager(rs, tip)}
 	}
 	// F-flush: let >= 5 simulated seconds pass between two applies / reverts
 	jumpDen := e.Range(2, 12)
@@ -168,6 +179,27 @@ func runC03(e *sim.Env) {
 		ioAt = e.Range(30, max(31, refOps))
 	}
 	ops := 0
+	if cached {
+		// the cache writes its sorted batches in an order of its own (map
+		// iteration): the injected error is made independent of that order -
+		// from the drawn commit on, every write to one drawn bucket fails
+		failing := ioAt >= 0
+		ioAt = -1
+		if failing {
+			bucket := []string{"MainChain", "States", "Blocks", "SiacoinElements", "SiafundElements", "FileContracts", "Tree"}[e.Intn(7)]
+			after := e.Range(1, 12)
+			disk.FaultAt = func(op, b string) error {
+				if b == bucket && disk.Flushes >= after {
+					if !ioFired {
+						ioFired = true
+						e.Fault("ioerr-bucket-writes-fail")
+					}
+					return errInjectedIO
+				}
+				return nil
+			}
+		}
+	}
 	if disk != nil {
 		disk.Fault = func(op string) error {
 			ops++
@@ -336,7 +368,7 @@ func runC03(e *sim.Env) {
 func init() {
 	register(&Prop{
 		ID: "C03", Run: runC03, Quick: 900, Thorough: 8000, Level: "fault_enumeration",
-		Rule:        "one run = one sampled history (network, fork tree with all transaction kinds, corrupted twins, submission plan, ending on a chain made dominant) executed with simulated clock jumps >= 5 s between drawn ApplyBlock/RevertBlock calls (so the store's own time-based flush commits inside reorgs) and optionally one injected I/O error; EVERY distinct committed image of that history (simdisk: content-hashed images at each Flush; 1 run in 8: real bbolt, file copy after each commit, first 10) is reopened and checked: opens without error, tip is the tip held at that commit, C01 audit, every best-chain supplement present, served view == linear twin and reference ledger, then the remaining plan is re-submitted and the final view must equal the uninterrupted run's; distinct = abstract trace of (mid-reorg?, height bucket, regime) per image; non-trivial = at least two images or one image committed by the store between two applies/reverts",
+		Rule:        "one run = one sampled history (network, fork tree with all transaction kinds, corrupted twins, submission plan, ending on a chain made dominant) executed with simulated clock jumps >= 5 s between drawn ApplyBlock/RevertBlock calls (so the store's own time-based flush commits inside reorgs) and optionally one injected I/O error; EVERY distinct committed image of that history (simdisk: content-hashed images at each Flush, in 1 of 3 of those runs underneath chain.NewCacheDB; 1 run in 8: real bbolt, file copy after each commit, first 10) is reopened and checked: opens without error, tip is the tip held at that commit, C01 audit, every best-chain supplement present, served view == linear twin and reference ledger, then the remaining plan is re-submitted and the final view must equal the uninterrupted run's; distinct = abstract trace of (mid-reorg?, height bucket, regime) per image; non-trivial = at least two images or one image committed by the store between two applies/reverts",
 		Real:        []string{"chain.Manager", "chain.DBStore", "coreutils.BoltChainDB + bbolt (1 run in 8)"},
 		Stub:        []string{"disk: simdisk.DB with explicit committed image / pending overlay (7 runs in 8)"},
 		Assumptions: []string{"the size-based flush trigger (100 MB) is not reached at simulation scale; the time-based trigger exercises the same commit site", "bbolt commit atomicity is trusted", "a process stop loses exactly the writes since the last successful chain.DB.Flush"},
